@@ -14,6 +14,8 @@ pub struct Task {
     pub has_direction: bool,
     /// Total size of the input files (used to keep the big tasks rare).
     pub weight: usize,
+    /// Problems larger than a pipe buffer; only used by the C10 engines (marker `^` in tasks.txt).
+    pub large: bool,
     /// A task anthem refuses with an error (kept for C18's error-output determinism; useless for C10/C20).
     pub refused: bool,
     /// Many large problems: drawn rarely by C10 (it costs scheduler steps, not coverage).
@@ -46,7 +48,7 @@ fn parse_line(id: String, dir: &Path, words: &[&str]) -> Option<Task> {
     }
     let weight = files.iter().map(|f| fs::metadata(dir.join(f)).map(|m| m.len() as usize).unwrap_or(0)).sum();
     let has_direction = options.iter().any(|o| o.starts_with("--direction"));
-    Some(Task { id, dir: dir.to_path_buf(), files, options, has_direction, weight, refused: false, heavy: false })
+    Some(Task { id, dir: dir.to_path_buf(), files, options, has_direction, weight, refused: false, heavy: false, large: false })
 }
 
 fn walk(dir: &Path, out: &mut Vec<PathBuf>) {
@@ -92,11 +94,13 @@ pub fn load(repo: &Path, verif: &Path) -> Vec<Task> {
         }
         let refused = words[0].starts_with('!');
         let heavy = words[0].starts_with('~');
-        let name = words[0].trim_start_matches(['!', '~']);
+        let large = words[0].starts_with('^');
+        let name = words[0].trim_start_matches(['!', '~', '^']);
         let dir = corpus.join(name);
         if let Some(mut task) = parse_line(format!("corpus:{name}#{n}"), &dir, &words[1..]) {
             task.refused = refused;
             task.heavy = heavy;
+            task.large = large;
             tasks.push(task);
         }
     }
